@@ -27,6 +27,8 @@ class OnionWorld:
         self.loop = vloop.install(vloop.StepLoop(start=1000.0))
         self.t0 = self.loop.time()
         self.net = attach(self.loop, SimNet(self.loop, auto=False))
+        self.net.hold_transports = True
+        self.auto_transports = True      # open outside sockets right after the step that enabled them (a logged step)
         self.names = list(names)
         self.nodes = {}
         self.ov = {}
@@ -163,7 +165,8 @@ class OnionWorld:
             for rc, ex in ov.exit_sockets.items():
                 e += [{"cid": self.cid(rc), "prev": self.name_of_addr(ex.hop.address), "pk": self.name_of_peer(ex.hop.peer),
                                         "enabled": bool(ex.enabled),
-                                        "open": bool(ex.transport_ipv4 is not None or ex.transport_ipv6 is not None)}]
+                                        "open": bool(ex.transport_ipv4 is not None or ex.transport_ipv6 is not None),
+                                        "queued": len(ex.queue)}]
             st["exit"][nm] = e
             retry, created, create, ping = [], [], [], []
             for cache in ov.request_cache._identifiers.values():
@@ -330,6 +333,35 @@ class OnionWorld:
         self.loop.call(ov.remove_circuit, self.real_cid(spec_cid), "driver", False, 1 if destroy else False)
         return self.log("RemoveCircuit", o=o, cid=spec_cid, destroy=bool(destroy))
 
+    def pending_sockets(self):
+        """exit sockets (node name, spec cid) whose outside transports are still being opened"""
+        out = []
+        for protocol, fut in self.net.pending_transports:
+            if fut.done():
+                continue
+            sock = getattr(getattr(protocol, "received_cb", None), "__self__", None)
+            if sock is None:
+                continue
+            nm = next((k for k, v in self.ov.items() if v is sock.overlay), None)
+            if nm is not None and sock.overlay.exit_sockets.get(sock.circuit_id) is sock and (nm, self.cid(sock.circuit_id)) not in out:
+                out.append((nm, self.cid(sock.circuit_id)))
+        return out
+
+    def transports_ready(self, n, spec_cid):
+        """both outside sockets of that exit socket come into existence (create_transports continues)"""
+        sock = self.ov[n].exit_sockets[self.real_cid(spec_cid)]
+        for _ in range(2):
+            for protocol, fut in list(self.net.pending_transports):
+                if not fut.done() and getattr(getattr(protocol, "received_cb", None), "__self__", None) is sock:
+                    self.loop.call(fut.set_result, None)
+                    self.loop.drain()
+        return self.log("TransportsReady", n=n, cid=spec_cid)
+
+    def _auto_transports(self):
+        if self.auto_transports:
+            for n, c in self.pending_sockets():
+                self.transports_ready(n, c)
+
     def exit_return(self, x, spec_cid, p):
         ov = self.ov[x]
         sock = ov.exit_sockets[self.real_cid(spec_cid)]
@@ -380,7 +412,9 @@ class OnionWorld:
             tb = traceback.extract_tb(exc.__traceback__)
             site = next(("%s:%s" % (f.filename.split("/ipv8/")[-1], f.name) for f in reversed(tb) if "/ipv8/" in f.filename), "?")
             self.escaped.append({"seq": seq, "exc": type(exc).__name__, "site": site, "msg": str(exc)[:200]})
-        return self.log("Deliver", id=seq)
+        ev = self.log("Deliver", id=seq)
+        self._auto_transports()
+        return ev
 
     def lose(self, seq):
         self.net.drop_next(self.find(seq))
@@ -553,7 +587,7 @@ class OnionWorld:
         self._adv_put(src, dst, data)
         return self.log("ForgeDestroy", src=src, dst=dst, cid=spec_cid, signer=signer)
 
-    def mangle_answer(self, seq, how):
+    def mangle_answer(self, seq, how, target_cid=None):
         """rewrite a plaintext created cell in flight (real bytes, real DH for the 'ephauth' case)"""
         from ipv8.messaging.anonymization.payload import CreatedPayload
         from ipv8.messaging.anonymization.crypto import TunnelCrypto
@@ -570,7 +604,10 @@ class OnionWorld:
             ident = (ident + 1) % 65536
         elif how == "cid":
             others = [c for c in self.cid_map if c != cid_real]
-            new_cid = others[0] if others else self._unknown_cid()
+            if target_cid is not None:
+                new_cid = self.real_cid(target_cid)
+            else:
+                new_cid = others[0] if others else self._unknown_cid()
             self.orig_cid.setdefault(seq, cid_real)
         elif how == "eph":
             from ipv8.keyvault.crypto import default_eccrypto
